@@ -19,14 +19,14 @@ PLAN = {
         rule=("one item descriptor per case (all dynamic types the generator knows: nil, string, rune, numbers, bool, slices, maps, structs, pointers, nested cells to depth 3, "
               "the 32-type interface matrix {String,GoString,Error,Height,TerminalCellWidth} by value and by pointer, pointer-receiver types) plus an optional "
               "mutation of the item behind the cell's back; observation script NewCell/read/mutate/read/Update/read, stand-alone and inside a table, and the text as shown by the CSV renderer. "
-              "Oracle: text-form function written from the statement. Non-trivial: item implements >=2 text interfaces, or is a rune, nested cell or nil, or has empty text, or is mutated then updated. "
+              "Oracle: text-form function written from the statement. The text is also observed through the boxless text renderer and the HTML renderer, and for items that do not override their size the cell's height/lines/width must follow the text, also after mutation and Update. Non-trivial: item implements >=2 text interfaces, or is a rune, nested cell or nil, or has empty text, or is mutated then updated. "
               "Distinct: (kind, mask, pointer-ness, nesting depth, text hash, mutation)."),
         level_text=("Generated-input search against a specification function (text-form dispatch written from the property statement), plus complete enumeration of the "
                     "32x2 interface matrix with empty/non-empty texts and three mutation classes, plus native fuzzing of the texts. Exploration level."),
         level_note="Trusts the harness' TextForm (30 lines), fmt's %v (used as the statement says), and that the materialised item types are representative of 'all dynamic types'.",
         technique="property-based testing (rapid) against a specification function + exhaustive enumeration of the interface matrix + native Go fuzzing",
         quick=[rapid("prop", "TestProp", 20000), enum("matrix", "TestEnum")],
-        thorough=[rapid("prop", "TestProp", 100000, shards=16), enum("matrix", "TestEnum"), fuzz("fuzz", "FuzzC01", 40)],
+        thorough=[rapid("prop", "TestProp", 200000, shards=16), enum("matrix", "TestEnum"), fuzz("fuzz", "FuzzC01", 60)],
     ),
     "C02": dict(
         pkg="c02",
@@ -41,20 +41,20 @@ PLAN = {
         level_note="Trusts the reference model in internal/gen/script.go (counts, order, per-row cell lists). When AddHeaders replaced a longer header by a shorter one NColumns may lie anywhere between the current and the historical maximum (the statement is ambiguous there).",
         technique="model-based stateful property testing (rapid) + bounded exhaustive enumeration of build histories",
         quick=[rapid("prop", "TestProp", 5000), enum("enum", "TestEnum", shards=11, env={"VERIF_C02_ENUM_LEN": 5})],
-        thorough=[rapid("prop", "TestProp", 40000, shards=16), enum("enum", "TestEnum", shards=11, env={"VERIF_C02_ENUM_LEN": 6})],
+        thorough=[rapid("prop", "TestProp", 100000, shards=16), enum("enum", "TestEnum", shards=11, env={"VERIF_C02_ENUM_LEN": 6})],
     ),
     "C03": dict(
         pkg="c03",
         rule=("rapid-generated build histories of string cells over a width-hostile alphabet (multi-line, CJK wide, full-width, combining, zero-width, emoji ZWJ/flag/skin-tone sequences, grapheme extenders, tabs), "
               "ragged and zero-cell rows, header anywhere in the history or absent, separators anywhere, Row.Add after attach; decoration = each of the six built-ins (by registry name or constructor) or a custom decoration "
               "(random non-empty subset of the 22 glyph fields set to distinct width-1 glyphs, completed by Populate). Oracle: independent reference renderer written from the statement, byte-exact comparison; plus, "
-              "where the library's measure is additive for every cell line, all rendered lines must have equal display width. Tables with zero columns are out of the property's domain and skipped (counted). "
+              "where the library's measure is additive for every cell line, all rendered lines must have equal display width. Some cases also set alignments, put other renderers' wrappers on the same table (optionally rendering through them), create and render the text wrapper while the table is still incomplete, mutate an item and Update() its cell, and render the text wrapper up to three times: every render must equal the reference. Tables with zero columns are out of the property's domain and skipped (counted). "
               "Non-trivial: a multi-line cell, a non-ASCII/wide/zero-width token, a ragged or zero-cell row, a header narrower than the body, or a custom decoration. Distinct: FNV-64 of the case."),
         level_text=("Generated-input search with a differential oracle (independent reference renderer) and a metamorphic rectangle check computed only from the actual output; native fuzzing of cell texts. Exploration level."),
         level_note="Trusts the reference renderer (internal/oracle/text.go, ~200 lines, shares only length.StringCells with the library), Populate() for filling custom decorations, and glyphs of display width 1 (the documented precondition).",
         technique="property-based testing (rapid) with an independent reference renderer (differential) + rectangle invariant + native Go fuzzing",
         quick=[rapid("prop", "TestProp", 6000)],
-        thorough=[rapid("prop", "TestProp", 40000, shards=16), fuzz("fuzz", "FuzzC03", 45)],
+        thorough=[rapid("prop", "TestProp", 100000, shards=16), fuzz("fuzz", "FuzzC03", 60)],
     ),
     "C04": dict(
         pkg="c04",
@@ -62,18 +62,18 @@ PLAN = {
               "(single non-empty text line incl. ANSI escapes, declared 0..12: smaller, equal, larger than measured) and/or height (declared 0..5 against 0..n text lines, incl. empty text). "
               "Oracle: the reference renderer extended by the statement (effective alignment = own else column 0 else left; pad right/left/split with the odd space on the right; declared width used for column and padding; "
               "row height = max(declared height, text lines, 1)), byte-exact. Plus full enumeration of 4^3 alignment assignments on three fixed grids under three decorations. "
-              "Non-trivial: a column inherits its alignment from column 0, or a centred line has an odd pad, or an item overrides its size. Distinct: FNV-64 of the case."),
+              "As in C03, cases may render the text wrapper early and repeatedly, carry other wrappers on the table and mutate items between (a width-declaring item left without exactly one text line by a mutation makes the case out of domain). Non-trivial: a column inherits its alignment from column 0, or a centred line has an odd pad, or an item overrides its size. Distinct: FNV-64 of the case."),
         level_text=("Generated-input search with a differential oracle (reference renderer) over alignments and size-overriding items, plus a small exhaustive alignment matrix. Exploration level."),
         level_note="Same trusted base as C03. Width-declaring items are generated with exactly one non-empty text line (what the statement covers); negative declarations and non-Alignment property values are out of domain.",
         technique="property-based testing (rapid) with an independent reference renderer (differential) + exhaustive alignment matrix",
         quick=[rapid("prop", "TestProp", 6000), enum("matrix", "TestEnum")],
-        thorough=[rapid("prop", "TestProp", 40000, shards=16), enum("matrix", "TestEnum")],
+        thorough=[rapid("prop", "TestProp", 150000, shards=16), enum("matrix", "TestEnum")],
     ),
     "C05": dict(
         pkg="c05",
         rule=("rapid-generated build histories (AddHeaders/AddRowItems/NewRow*/Row.Add before and after attach/AddRow/AddSeparator/AppendNewRow) "
               "of string cells over a CSV-hostile token alphabet and raw bytes, rendered as CSV, parsed by a strict all-quoted RFC 4180 "
-              "state machine and compared record by record with the reference model. Non-trivial: some field contains a quote, comma, CR or LF, "
+              "state machine and compared record by record with the reference model. Items are mostly strings, sometimes any other kind (text form by the model); in a quarter of the cases the same wrapper first renders into a writer that accepts half of one write and fails; the caller scrambles the AllRows copy before rendering. Non-trivial: some field contains a quote, comma, CR or LF, "
               "or a row/header has zero cells, or a separator is present. Distinct: FNV-64 of the case JSON."),
         assumptions=["at most one AddHeaders per history (a replaced, shorter header makes 'the column count' ambiguous; C02 covers it)"],
         level_text=("Generated-input search with an independent strict RFC 4180 parser as round-trip oracle and a reference model of the build history as ground truth; "
@@ -81,19 +81,19 @@ PLAN = {
         level_note="Trusts the harness' own parser and model (both written from the property statement, ~100 lines), rapid's generators, and the Go toolchain.",
         technique="property-based testing (rapid, model-based round-trip through a strict parser) + native Go fuzzing of the same oracle",
         quick=[rapid("prop", "TestProp", 10000)],
-        thorough=[rapid("prop", "TestProp", 60000, shards=16), fuzz("fuzz", "FuzzC05", 40)],
+        thorough=[rapid("prop", "TestProp", 150000, shards=16), fuzz("fuzz", "FuzzC05", 60)],
     ),
     "C06": dict(
         pkg="c06",
         rule=("rapid-generated build histories of string cells over a markup-hostile alphabet (angle brackets, quotes, ampersands, entity look-alikes with and without semicolon, script/style/comment/CDATA text, closing tags of the skeleton, "
               "template delimiters, backslashes, control characters, newlines, U+FFFD and non-characters, wide characters), any shape incl. ragged/zero-cell/zero-value rows and separators anywhere; Id, Class, Caption, TemplateName each empty or hostile; "
               "optional recording row-class generator; one or two renders on the same wrapper. Oracle: strict tokenizer (tags of the form <name attr=\"v\"> only) + exact skeleton computed from the model + html.UnescapeString of every th/td/caption text and attribute value "
-              "equals the supplied string + generator call log equals [0]++[1-based positions of non-separator rows]. Non-trivial: some supplied string contains one of < > & \" '. Distinct: FNV-64 of the case."),
+              "equals the supplied string + generator call log equals [0]++[1-based positions of non-separator rows]. The row-class generator may be replaced, installed or removed between the 1..3 renders on the same wrapper; a row may be added to the table twice (positions are by place in the table). Non-trivial: some supplied string contains one of < > & \" '. Distinct: FNV-64 of the case."),
         level_text="Generated-input search with a round-trip oracle (tokenise, match the exact skeleton, entity-decode and compare with the model) plus native fuzzing of all seven strings. Exploration level.",
         level_note="Trusts the harness' tokenizer/skeleton matcher and Go's html.UnescapeString as the entity decoder. Inputs are valid UTF-8 without NUL (html/template replaces those by U+FFFD by design); row-class return values are benign by construction.",
         technique="property-based testing (rapid) with a strict tokenizer + skeleton round-trip oracle + native Go fuzzing",
         quick=[rapid("prop", "TestProp", 4000)],
-        thorough=[rapid("prop", "TestProp", 20000, shards=16), fuzz("fuzz", "FuzzC06", 45)],
+        thorough=[rapid("prop", "TestProp", 60000, shards=16), fuzz("fuzz", "FuzzC06", 60)],
     ),
     "C07": dict(
         pkg="c07",
@@ -102,12 +102,12 @@ PLAN = {
               "Stringers over field-less structs, TextMarshaler, json.Marshaler, runes, nested cells, unencodable channels); ragged, zero-cell and zero-value rows, Row.Add after attach, separators in every position "
               "(leading, trailing, repeated, only); skipable in {unset,true,false,non-bool} for column 0 and each column. Oracle: model decides error-vs-output; on error Render must return \"\"; otherwise json.Valid, "
               "a token-stream walk (array of objects, no duplicate keys, keys in column order) compared with the expected key set and the compacted expected value (json.Marshal(item), or of the text when that is {} and the text is non-empty). "
-              "Non-trivial: a separator is first/last/repeated/alone, a skipable column has an empty cell, a header needs escaping, or the empty-object fallback applies. Distinct: FNV-64 of the case."),
+              "A third of the cases carry a property history on the columns (skipable set, replaced and removed again, interleaved with alignment and user properties): the last setting wins and nil removes. Non-trivial: a separator is first/last/repeated/alone, a skipable column has an empty cell, a header needs escaping, or the empty-object fallback applies. Distinct: FNV-64 of the case."),
         level_text="Generated-input search with a round-trip oracle (decode with encoding/json's token stream and compare with the model). Exploration level.",
         level_note="Trusts encoding/json as the definition of 'valid JSON' and of 'the JSON encoding of the item', and the model's text form for emptiness. Header texts are valid UTF-8 (JSON cannot carry other bytes).",
         technique="property-based testing (rapid), model-based round-trip through encoding/json's decoder",
         quick=[rapid("prop", "TestProp", 10000)],
-        thorough=[rapid("prop", "TestProp", 60000, shards=16)],
+        thorough=[rapid("prop", "TestProp", 300000, shards=16)],
     ),
     "C08": dict(
         pkg="c08",
@@ -115,12 +115,12 @@ PLAN = {
               "angle brackets, quotes, ampersands, delimiter-row look-alikes, wide characters) plus raw bytes, CR excluded (documented non-goal); ragged, zero-cell and zero-value rows, short headers, separators; "
               "alignment from {unset,left,right,centre} for column 0 and each column. Oracle from the statement: line count = 2 + data rows; every line has exactly ncols+1 pipes, none backslash-escaped; delimiter cells match ^ ?(:?)-{3,}(:?) ?$ "
               "with the colon markers of the effective alignment (own else column 0); each cell trimmed of spaces and entity-decoded equals the space-trimmed text; no raw < > \" ' CR, every & starts an escape; missing header or zero columns => error and \"\". "
-              "Non-trivial: content contains a pipe, LF, angle bracket or ampersand, or an alignment is inherited from column 0, or a row is short. Distinct: FNV-64 of the case."),
+              "Items are strings, runes of special characters and other kinds; the wrapper may be created and rendered while the table is incomplete, items may be mutated and Update()d in between. Non-trivial: content contains a pipe, LF, angle bracket or ampersand, or an alignment is inherited from column 0, or a row is short. Distinct: FNV-64 of the case."),
         level_text="Generated-input search with a structural parser of the GFM table and a decode-and-compare round trip against the model; native fuzzing of cell texts and alignments. Exploration level.",
         level_note="Trusts the harness' line/pipe splitter and html.UnescapeString. Padding widths are not asserted (documented as best-effort). Left alignment accepts no marker or a leading colon.",
         technique="property-based testing (rapid) with a GFM-structure parser + decode round trip + native Go fuzzing",
         quick=[rapid("prop", "TestProp", 10000)],
-        thorough=[rapid("prop", "TestProp", 60000, shards=16), fuzz("fuzz", "FuzzC08", 45)],
+        thorough=[rapid("prop", "TestProp", 150000, shards=16), fuzz("fuzz", "FuzzC08", 60)],
     ),
     "C09": dict(
         pkg="c09",
@@ -143,7 +143,7 @@ PLAN = {
         pkg="c10",
         rule=("rapid-generated contents (build histories with string and mixed items, repeated headers, late adds, separators; alignments and skipable settings) x creation path (core New, each sub-package New, auto.New of every listed style and of "
               "case/section variants) x nesting chain of 0..3 wrappers over {csv, html, json, markdown, texttable, texttable set to another decoration} applied before or after building x target in {csv, html, json, markdown, each registered decoration}, "
-              "optionally with a long-lived target wrapper created and rendered while the table was still incomplete. Oracle (differential/metamorphic): the same content replayed on a core table and rendered once by X.Wrap(t).Render(); "
+              "optionally with a long-lived target wrapper created and rendered while the table was still incomplete. Histories include item mutation + Cell.Update; a quarter of the cases first let a sibling table fail part-way in the target format; every wrapper of the nesting that is of the target kind is rendered three times through its own handle. Oracle (differential/metamorphic): the same content replayed on a core table and rendered once by X.Wrap(t).Render(); "
               "X.Render(t), X.Wrap(t).Render(), X.RenderTo(t,w), X.Wrap(t).RenderTo(w), Render-then-RenderTo on one wrapper, the table's own Render() when it is of the target kind, auto.Render/RenderTo/Wrap with the style and 'texttable.<style>', "
               "and the long-lived wrapper must all be byte-identical to it and agree on error-ness. Plus an enumeration of 2 contents x 20 creation paths x 57 chains (depth<=2) x 10 targets x 2 build orders. "
               "Non-trivial: creation path other than core, or a wrapper of another kind than the target in the chain. Distinct: FNV-64 of the case."),
@@ -151,7 +151,7 @@ PLAN = {
         level_note="The reference is produced by the library itself on the simplest route (core New + X.Wrap(t).Render()), so an error common to all routes is invisible here (C03-C08 judge content). Items whose %v text embeds a memory address are not generated (two builds cannot agree on them).",
         technique="property-based testing (rapid) with a differential/metamorphic route-agreement oracle + bounded enumeration of configurations",
         quick=[rapid("prop", "TestProp", 3000), enum("routes", "TestEnum", shards=12)],
-        thorough=[rapid("prop", "TestProp", 15000, shards=16), enum("routes", "TestEnum", shards=12)],
+        thorough=[rapid("prop", "TestProp", 60000, shards=16), enum("routes", "TestEnum", shards=12)],
     ),
     "C11": dict(
         pkg="c11",
@@ -159,30 +159,30 @@ PLAN = {
               "(nil iff empty, element-wise identical, never a nil entry, nil container = no-op). (B) table histories: build operations interleaved with Row.AddError on pending and attached rows, Row.Add on separator and zero-value rows, registration of failing recording "
               "callbacks on every owner (table, column incl. 0, row pending/attached, cell) x 4 times x 3 targets before or after the rows exist, and render passes (InvokeRenderCallbacks, csv, texttable); every raised error is unique. After every step: each pending row reports exactly "
               "the errors raised on it, in order; the table reports every error raised on it or on rows that have joined it exactly once, no nil, per-source order preserved, misuse errors counted. "
-              "Non-trivial: (A) a zero-value or nil container receives a list with a nil entry; (B) an error on a pending row, a failing callback, or a cell added to a separator. Distinct: FNV-64 of the history."),
+              "Part A works on two containers: errors of one are merged into the other via Errors(), and the caller overwrites and extends the list it passed last. Non-trivial: (A) a zero-value or nil container receives a list with a nil entry; (B) an error on a pending row, a failing callback, or a cell added to a separator. Distinct: FNV-64 of the history."),
         level_text="Model-based (stateful) property testing: the history is one shrinkable value, the model invariant runs after every step. Exploration level.",
         level_note="The oracle is driven by the errors the harness' callbacks actually returned (not by a firing specification), so it holds for any callback schedule; errors not created by the harness are ignored except the documented misuse error. Caller-side aliasing of slices passed in or handed out is not asserted.",
         technique="model-based stateful property testing (rapid) with an invariant after every step",
         quick=[rapid("containers", "TestPropA", 10000), rapid("tables", "TestPropB", 5000)],
-        thorough=[rapid("containers", "TestPropA", 60000, shards=8), rapid("tables", "TestPropB", 30000, shards=16)],
+        thorough=[rapid("containers", "TestPropA", 200000, shards=8), rapid("tables", "TestPropB", 150000, shards=16)],
     ),
     "C12": dict(
         pkg="c12",
         rule=("stateful: rapid-generated histories of 3..30 (thorough 60) operations over set / set-to-nil / re-set-same-value / copy a cell by value / add a copied cell to a row / grow the table (0..24 cells, crossing the 10- and 20-entry capacities) / "
               "AddHeaders / pending rows and attach / separators / take and keep a column handle, on owners {table, table through a wrapper, Column(n) fetched now, handles taken earlier, rows attached and pending and separators, live cells, header cells, by-value cell copies}, "
-              "keys from a pool mixing int(1), int64(1), \"1\", a named int type, a struct, two distinct pointers to equal values, uint8(1) and the library's own alignment key. Oracle: one map per owner; after EVERY step every key of the pool is read on EVERY owner "
+              "keys from a pool mixing int(1), int64(1), \"1\", a named int type, a struct, two distinct pointers to equal values, uint8(1) and the library's own alignment key. More operations: set 8..12 keys at once, build a cell from a cell (a new owner with no properties), call Update() on cell owners. Oracle: one map per owner; after EVERY step every key of the pool is read on EVERY owner "
               "(so a cross-owner leak shows at once); re-setting a key to its current value must leave len(%#v owner) unchanged. Non-trivial: >=2 keys on one owner and a cell copy or a handle held across growth. Distinct: FNV-64 of the history."),
         level_text="Model-based (stateful) property testing with a per-owner map model and a global read-back sweep after every step. Exploration level.",
         level_note="Cell owners are re-resolved through the row at every use (only column handles are required to stay valid across growth). The growth check is representation-agnostic (length of the %#v rendering).",
         technique="model-based stateful property testing (rapid) with a per-owner map model",
         quick=[rapid("prop", "TestProp", 5000)],
-        thorough=[rapid("prop", "TestProp", 40000, shards=16)],
+        thorough=[rapid("prop", "TestProp", 150000, shards=16)],
     ),
     "C13": dict(
         pkg="c13",
         rule=("exhaustive: each of the 48 (owner kind x time x target) registrations singly and every ordered pair (2304), made at every registration point (before, between and after the build operations) of 4 small shapes "
               "(with/without header, 0..2 cells, separator, a pending row filled before and after attach, a late Row.Add, a zero-cell row), followed by two render passes; plus rapid-generated histories of up to 16 (thorough 28) steps interleaving build operations, "
-              "registrations on table/column(incl. 0)/row(pending or attached)/cell/header cell and render passes (InvokeRenderCallbacks or a csv render), on tables created through core and wrapper constructors. Callbacks are recorders: they log (registration, identity of the object handed over) "
+              "registrations on table/column(incl. 0)/row(pending or attached)/cell/header cell and render passes (InvokeRenderCallbacks or a csv render), on tables created through core and wrapper constructors. A macro step registers a render callback on a stand-alone cell, adds that cell by value to two rows and registers one more callback on each copy; rows may be 9..22 cells wide and registrations may address the highest column. Callbacks are recorders: they log (registration, identity of the object handed over) "
               "and write a marker property on it. Oracle: a firing table transcribed from the statement predicts, for the specified slots, the exact sequence of (slot, target) groups per operation and per pass (registration order inside one slot is not compared); "
               "the object handed over must be a live object of the table (pointer identity); the marker must be readable afterwards through table.GetProperty / Column(n) / the row / CellAt; unsupported owner/target combinations must be refused and all others accepted. "
               "Slots the statement leaves open (table-itself RENDER, row callbacks at render time on the table, RENDER on row/column cell sets, PRE/POST on a cell, column 0, column-level firing on header cells, add-time firing for the header row, late-added cells for table/column add callbacks) are filtered out. "
@@ -191,53 +191,53 @@ PLAN = {
         level_note="Trusts the firing model in c13.go (predictOp/predictRender/specified). Only slots the statement fixes are compared.",
         technique="exhaustive enumeration of registrations x shapes + model-based stateful property testing (rapid) against a firing model",
         quick=[enum("matrix", "TestEnum", shards=8), rapid("prop", "TestProp", 10000)],
-        thorough=[enum("matrix", "TestEnum", shards=8), rapid("prop", "TestProp", 40000, shards=16)],
+        thorough=[enum("matrix", "TestEnum", shards=8), rapid("prop", "TestProp", 200000, shards=16)],
     ),
     "C14": dict(
         pkg="c14",
         rule=("rapid-generated tables (build histories with strings, mixed items and items whose declared size disagrees with their text; alignments; skipable settings; tables that already carry errors) followed by 2..12 acts: "
               "render in one of a small palette of styles (csv, html, json, markdown, six decorations) through a fresh wrapper or through the long-lived wrapper of that style, or set a user property (private key type) on the table, a column, a row, a cell or a header cell "
-              "- also between renders, on cells the renderers have already measured. Oracle: (1) after every act the full snapshot (row/column counts, row identity/separator/location, every cell's text, location and item identity, headers, the error list element by element, every user-set property) "
+              "- also between renders, on cells the renderers have already measured. Further acts: mutate an item and Update() its cell (the reference then includes the mutation), and render into a failing writer (from k / once at k / partial at k) through a fresh or the long-lived wrapper. Oracle: (1) after every act the full snapshot (row/column counts, row identity/separator/location, every cell's text, location and item identity, headers, the error list element by element, every user-set property) "
               "equals the model; (2) every render's bytes and error-ness equal the fresh-replica reference for its style: the same content replayed on a brand-new table rendered exactly once in that style only (so interference that is present already at first use is seen). "
               "Non-trivial: >=2 distinct styles, a repeated style, and a reused wrapper. Distinct: FNV-64 of the case."),
         level_text="Generated-input search over render sequences with a snapshot invariant and a metamorphic fresh-replica oracle. Exploration level.",
         level_note="The fresh-replica reference is produced by the library on an untouched table; an error common to every first render is invisible here (C03-C08 judge content). Items whose text embeds a memory address are not generated.",
         technique="property-based testing (rapid): snapshot invariant over render histories + metamorphic fresh-replica comparison",
         quick=[rapid("prop", "TestProp", 3000)],
-        thorough=[rapid("prop", "TestProp", 15000, shards=16)],
+        thorough=[rapid("prop", "TestProp", 80000, shards=16)],
     ),
     "C15": dict(
         pkg="c15",
         level="fault_enumeration",
         rule=("rapid-generated tables (headed, distinct keys so that every renderer succeeds; multi-line cells; separators; ragged rows; alignments) x renderer in {csv, html, json, markdown, text under utf8-heavy / none (boxless) / ascii-simple / utf8-light}; "
               "for each (table, renderer) a fault-free run counts the Write calls W and records the output, then EVERY k in [0,W) x mode in {every call from k on fails, only call k fails, call k writes half of its bytes and reports an error while later calls succeed} "
-              "is run on a freshly built table with a scripted io.Writer. Oracle: RenderTo returns a non-nil error, does not panic, and the concatenation of the bytes the writer accepted is a prefix of the fault-free output. "
+              "is run on a freshly built table with a scripted io.Writer. After each fault the same wrapper is asked again, first with another writer failing once (prefix property again) and then with a healthy writer (the full fault-free output). Oracle: RenderTo returns a non-nil error, does not panic, and the concatenation of the bytes the writer accepted is a prefix of the fault-free output. "
               "Each (table, renderer, k, mode) is one evaluation and a distinct fault point; non-trivial if k > 0 or the mode is not 'fails from k on'."),
         level_text="Fault enumeration: for every generated (table, renderer) pair the space of single write-fault points (index x 3 modes) is enumerated completely; tables are drawn by rapid. Complete per table, exploratory over tables.",
         level_note="Faults are injected at io.Writer.Write granularity with three failure modes; multi-fault sequences (two separate failing calls) are not enumerated. Tables whose fault-free render fails are skipped (counted).",
         technique="fault injection enumerated over every write index x failure mode, on rapid-generated tables (property-based testing)",
         quick=[rapid("prop", "TestProp", 300, min_evals=300)],
-        thorough=[rapid("prop", "TestProp", 2000, shards=16, min_evals=2000)],
+        thorough=[rapid("prop", "TestProp", 6000, shards=16, min_evals=6000)],
     ),
     "C16": dict(
         pkg="c16",
         replay_race=True,
         rule=("rapid-generated concurrent programs: 2..8 (thorough 16) goroutines, each building its OWN table from its own build history through its own creation path and rendering it 1..4 times in styles drawn from a small shared palette "
               "(csv, html, json, markdown, every registered decoration, 'texttable'), through fresh or reused wrappers, into a writer that yields the processor at every Write so that renders interleave; optionally one more goroutine reads the decoration registry and the style listing meanwhile. "
-              "Each case is run 3 times. The test binary is built with the Go race detector (GORACE=halt_on_error=1). Oracle: no data race report and no fatal runtime error, and every concurrent output (or error-ness) equals the output of the same program run alone, sequentially, beforehand. "
+              "Tables of different goroutines share cell texts, as plain strings in one and as width- or height-declaring items in another, and may hold NaN/Inf floats (JSON fails part-way). Each case is run 3 times. The test binary is built with the Go race detector (GORACE=halt_on_error=1). Oracle: no data race report and no fatal runtime error, and every concurrent output (or error-ness) equals the output of the same program run alone, sequentially, beforehand. "
               "The case is written to disk before it runs so that a process-killing failure still has a replay file. Non-trivial: at least two goroutines render the same style concurrently. Distinct: FNV-64 of the case."),
         level_text=("Generated concurrent programs under the Go race detector with a sequential-reference differential oracle; schedules are sampled (many rounds, a yielding writer, several GOMAXPROCS values in the thorough tier), not enumerated. Exploration level."),
         level_note="The harness does not own Go's scheduler: an interleaving-dependent output mix-up that involves no unsynchronised access is found only if a sampled schedule hits it. The race detector reports an unsynchronised conflicting pair whenever both accesses execute in a run.",
         technique="property-based testing (rapid) of generated concurrent programs under the Go race detector, differential against a sequential run",
         quick=[rapid("prop", "TestProp", 300, race=True, env={"GORACE": "halt_on_error=1"}, shrinktime="5s")],
-        thorough=[rapid("prop", "TestProp", 600, shards=16, race=True, env={"GORACE": "halt_on_error=1"}, gomaxprocs=[2, 4, 8, 16], shrinktime="5s")],
+        thorough=[rapid("prop", "TestProp", 1500, shards=16, race=True, env={"GORACE": "halt_on_error=1"}, gomaxprocs=[2, 4, 8, 16], shrinktime="5s")],
     ),
     "C17": dict(
         pkg="c17",
         replay_race=True,
         rule=("(seq) rapid-generated sequential histories of RegisterDecorationName (incl. overwrites), Named, RegisteredDecorationNames and renders by name over a per-case pool of fresh names that sort before, between or after the built-ins, "
               "against a map model: lookup = latest registered value or the empty decoration; listing strictly sorted (hence duplicate-free) and, projected onto the case's names and the built-ins, equal to the model's key set plus all six built-ins. "
-              "(conc) 2..6 goroutines x 3..9 such operations each, every call stamped with an atomic logical clock at call and return, followed by quiescent reads of every name and the listing; the recorded history is checked for linearizability "
+              "Listings handed out are scribbled on by the caller, auto.ListStyles is called in between, and an unknown name is also set after a known name or an explicit decoration. (conc) 2..6 goroutines x 3..9 such operations each, every call stamped with an atomic logical clock at call and return, followed by quiescent reads of every name and the listing; the recorded history is checked for linearizability "
               "against the same map specification with porcupine (every registered value is unique, so a read identifies the write it saw); built with the race detector. (burst) 2..32 goroutines each registering their own name 1..3 times, 20..60 rounds, "
               "then Named must return the latest and the listing must contain every name. (unknown) SetDecorationNamed of unknown names (\"\", case variants, names with trailing characters, sub-package names) must return an error and both the receiver and the returned table must refuse to render. "
               "Non-trivial: an overwrite (seq); one name written by two goroutines or a listing overlapping registrations (conc); >=2 goroutines (burst). Distinct: FNV-64 of the case."),
@@ -257,13 +257,13 @@ PLAN = {
         rule=("strings built from a width-hostile token alphabet (newlines leading/trailing/repeated, CJK wide, full-width, combining, zero-width, emoji ZWJ/flag/skin-tone sequences, "
               "grapheme extenders), arbitrary bytes and rapid's full-Unicode strings; each also stored in a cell as a plain string, Stringer, pointer-receiver Stringer, error, GoStringer, %v-formatted bytes or nested cell, "
               "and rendered once as a 1x1 text table so that the renderer's stored per-line widths can be compared with the metrics. Oracle: algebraic relations between Lines/LongestLine*/String* and Cell.Height/Lines/TerminalCellWidth. "
-              "Non-trivial: the string is empty, has a leading/trailing/repeated newline, or contains a non-ASCII byte. Distinct: FNV-64 of (string, wrapping)."),
+              "A third of the cases change the item's text behind the cell and Update() it (heights, lines, widths and the renderer's per-line widths must follow); every case also completes a short row of an already rendered table and renders again (equal to a fresh table, and a rectangle where the measure is additive). Non-trivial: the string is empty, has a leading/trailing/repeated newline, or contains a non-ASCII byte. Distinct: FNV-64 of (string, wrapping)."),
         level_text=("Generated-input search over strings with metamorphic/algebraic oracles (split/join, max-of-per-line, rune/byte/cell inequalities, cell height/width versus line metrics, "
                     "renderer per-line widths versus the metric), plus native byte-level fuzzing of the same oracle. Exploration level."),
         level_note="Trusts go-runewidth as 'the library's own cell-width measure' (the property is relative to it) and utf8.RuneCountInString/len as the rune and byte measures.",
         technique="property-based testing (rapid) with algebraic/metamorphic relations + native Go fuzzing over bytes",
         quick=[rapid("prop", "TestProp", 50000)],
-        thorough=[rapid("prop", "TestProp", 300000, shards=16), fuzz("fuzz", "FuzzC18", 40)],
+        thorough=[rapid("prop", "TestProp", 300000, shards=16), fuzz("fuzz", "FuzzC18", 60)],
     ),
     "C19": dict(
         pkg="c19",
@@ -272,7 +272,7 @@ PLAN = {
               "'texttable.'+name / 'TextTable.'+name / 'TEXTTABLE.'+name / case-flipped sub-package name / with arbitrary trailing sections. Oracle: the listing is sorted and contains csv, html, json, markdown, the six built-ins and every name registered so far; "
               "every listed name of this case (plus the fixed names and a sample of the rest) is accepted by auto.New and renders a fixed headed table without error; a (case-flipped) sub-package name with any trailing sections gives that package's table type and its direct render; "
               "'texttable' gives the default render of texttable.New(); 'texttable.N' and bare 'N' both equal texttable with SetDecorationNamed(N); an unknown or empty name gives a text table whose Render returns an error and \"\"; auto.New(style)+Render and auto.Render(t, style) agree. "
-              "Non-trivial: the case registers a name and then resolves a style built from it, or uses a case variant, prefix or trailing section. Distinct: FNV-64 of the case."),
+              "Styles are also resolved by re-styling an existing auto table of another style (auto.Wrap(auto.New(x), style)); decorations may be registered under names equal to sub-package names (the sub-package keeps winning, texttable.<name> selects the decoration). Non-trivial: the case registers a name and then resolves a style built from it, or uses a case variant, prefix or trailing section. Distinct: FNV-64 of the case."),
         level_text="Model-based (stateful) property testing over a growing global registry, with a differential oracle (style string versus the renderer selected directly). Exploration level.",
         level_note="Names containing a dot or equal (case-insensitively) to a sub-package name are not top-level style names by the documentation and are not generated; nothing is asserted about case variants of decoration names or about sections after 'texttable.NAME'.",
         technique="model-based stateful property testing (rapid) with a differential oracle",
